@@ -1269,3 +1269,84 @@ func NowTime() time.Time {
 	}
 	return s.Now()
 }
+
+// ---------------------------------------------------------------------------------------------
+// Ticker on the virtual clock: every tick is a timer thread that delivers the tick (dropping it if the consumer is
+// slow, like the real one) and arms the next
+
+type Ticker struct {
+	C       <-chan time.Time
+	c       chan time.Time
+	d       time.Duration
+	tm      *Timer
+	real    *time.Ticker
+	stopped bool
+}
+
+func NewTicker(d time.Duration) *Ticker {
+	if d <= 0 {
+		panic("non-positive interval for NewTicker")
+	}
+	s := Active()
+	if s == nil {
+		if Aborting() {
+			c := make(chan time.Time)
+			return &Ticker{C: c, c: c, stopped: true}
+		}
+		rt := time.NewTicker(freeDur(d))
+		return &Ticker{real: rt, C: rt.C}
+	}
+	tk := &Ticker{c: make(chan time.Time, 1), d: d}
+	tk.C = tk.c
+	tk.arm()
+	return tk
+}
+
+func (tk *Ticker) arm() {
+	s := Active()
+	if s == nil || tk.stopped {
+		return
+	}
+	tk.tm = s.newTimer(tk.d, func() {
+		if tk.stopped {
+			return
+		}
+		select {
+		case tk.c <- NowTime():
+		default:
+		}
+		tk.arm()
+	}, false)
+}
+
+func (tk *Ticker) Stop() {
+	if tk.real != nil {
+		tk.real.Stop()
+		return
+	}
+	tk.stopped = true
+	if tk.tm != nil {
+		tk.tm.Stop()
+	}
+}
+
+func (tk *Ticker) Reset(d time.Duration) {
+	if tk.real != nil {
+		tk.real.Reset(freeDur(d))
+		return
+	}
+	if tk.tm != nil {
+		tk.tm.Stop()
+	}
+	tk.d = d
+	tk.stopped = false
+	tk.arm()
+}
+
+// Tick is the leaky convenience form
+func Tick(d time.Duration) <-chan time.Time {
+	if d <= 0 {
+		return nil
+	}
+	return NewTicker(d).C
+}
